@@ -450,7 +450,7 @@ func (r *registry) gql(t *Ty) graphql.Type {
 type world struct {
 	schema     *graphql.Schema
 	fDef, gDef *graphql.FieldDefinition
-	uDef *graphql.FieldDefinition
+	uDef       *graphql.FieldDefinition
 	extra      []graphql.NamedType
 	hookCalls  int                  // invocations of InputCoercion hooks
 	fArgs      []hx.Sexp            // what f's resolver observed, per invocation
